@@ -1,6 +1,7 @@
 package main
 
 import (
+	"go/types"
 	"fmt"
 	"go/token"
 	"sort"
@@ -84,6 +85,7 @@ func (l mapLoop) earlyExits() []*ssa.BasicBlock {
 }
 
 func runC09(c *Ctx) {
+	runC09Satisfied(c)
 	p, fx := c.P, c.Fx
 	e := newAbsExec(p)
 
@@ -574,6 +576,37 @@ func runC09(c *Ctx) {
 			c.Check(okA, "O6", "PROV", funcKey(sf)+": the level's own total, k and queues are divided", instrPos(in), "SetResourcesShare(totalResources, kValue, queues)", "the division at a level is not applied to that level's total and queues")
 		}
 	}
+	if sf := c.P.Func("pkg/scheduler/plugins/proportion", "proportionPlugin", "setFairShareForQueues"); sf != nil {
+		// a level that has queues is always divided: the only exit that skips the division is "no queues at this
+		// level" (deserved quotas are granted whatever the total is — a zero total is no reason to skip)
+		div := isCallNamedInstr("SetResourcesShare")
+		qp := -1
+		for i, prm := range sf.Params {
+			if _, isMap := prm.Type().Underlying().(*types.Map); isMap {
+				qp = i
+			}
+		}
+		_, path, found := reachAvoiding([]cfgPos{entryPos(sf)}, isReturn, div, func(from, to *ssa.BasicBlock) bool {
+			return !fx.edgeEstablishes(from, to, func(f Fact) bool {
+				if f.T.Op != "bin" || len(f.T.Args) != 2 {
+					return false
+				}
+				isLen := func(t *Term) bool { return t.Op == "call" && strings.Contains(t.String(), "builtin.len") && rootParam(t) == qp }
+				zero := func(t *Term) bool { return t.String() == "const:0" }
+				switch {
+				case f.T.Name == "==" && f.Pol, f.T.Name == "!=" && !f.Pol:
+					return (isLen(f.T.Args[0]) && zero(f.T.Args[1])) || (isLen(f.T.Args[1]) && zero(f.T.Args[0]))
+				case f.T.Name == "<" && !f.Pol: // !(0 < len)
+					return zero(f.T.Args[0]) && isLen(f.T.Args[1])
+				case f.T.Name == ">" && !f.Pol:
+					return isLen(f.T.Args[0]) && zero(f.T.Args[1])
+				}
+				return false
+			})
+		})
+		c.Check(!found, "O6", "MPT", funcKey(sf)+": a level with queues is always divided", sf.Pos(), "the division is skipped only when the level has no queues",
+			"setFairShareForQueues can return without dividing although the level has queues ("+pathStr(path)+"): those queues and everything below them keep a fair share of 0 instead of at least min(deserved, request)")
+	}
 	if gc := c.Anchor("O6", "pkg/scheduler/plugins/proportion", "proportionPlugin", "getChildQueues"); gc != nil {
 		ok := false
 		for _, in := range instrsIn(gc, func(in ssa.Instruction) bool { _, isMU := in.(*ssa.MapUpdate); return isMU }) {
@@ -606,5 +639,45 @@ func runC09(c *Ctx) {
 			})
 			c.Check(a0.isCallTo(sd) && pos, "O6", "DOM", funcKey(st)+": the surplus divided is what setDeservedResource left, and only if positive", instrPos(in), "divideOverQuotaResource(remaining) behind remaining > 0", "the over-quota division is not fed the remainder of the deserved phase: "+a0.String())
 		}
+	}
+}
+
+// C09-O9 (RET): a queue counts as unsatisfied for a resource only when its request exceeds its fair share AND its
+// limit does not stop it there: the limit is the unlimited sentinel, or above the fair share. A finite limit —
+// including 0, the documented value of an unset limit on some resource — that is not above the fair share makes the
+// queue satisfied; otherwise it keeps a weight in the over-quota rounds and is offered surplus it cannot take, which
+// then reaches nobody although other queues still want it.
+func runC09Satisfied(c *Ctx) {
+	fx := c.Fx
+	fn := c.Anchor("O9", pkgResDiv, "", "isQueueSatisfied")
+	if fn == nil {
+		return
+	}
+	paths := fx.retPaths(fn, 0, WantFalse)
+	for i, rp := range paths {
+		_, over := hasFact(rp.Facts, func(f Fact) bool {
+			return !f.Pol && f.T.Op == "bin" && f.T.Name == "<=" && f.T.Args[0].lastField() == "Request" && f.T.Args[1].lastField() == "FairShare"
+		})
+		_, unlimited := hasFact(rp.Facts, func(f Fact) bool {
+			if f.T.Op != "bin" || len(f.T.Args) != 2 {
+				return false
+			}
+			isMax := f.T.Args[0].lastField() == "MaxAllowed" && f.T.Args[1].String() == "const:-1"
+			return isMax && ((f.T.Name == "==" && f.Pol) || (f.T.Name == "!=" && !f.Pol))
+		})
+		_, above := hasFact(rp.Facts, func(f Fact) bool {
+			return !f.Pol && f.T.Op == "bin" && f.T.Name == "<=" && f.T.Args[0].lastField() == "MaxAllowed" && f.T.Args[1].lastField() == "FairShare"
+		})
+		c.Check(over && (unlimited || above), "O9", "RET", fmt.Sprintf("%s unsatisfied path#%d", funcKey(fn), i), rp.Pos,
+			"request > fair share ∧ (limit unlimited ∨ limit > fair share)",
+			"a queue can count as unsatisfied although its request is within its fair share or a finite limit (0 included) stops it at its fair share: it keeps a share weight and is offered surplus it cannot take; facts: "+trunc(rp.Facts.String(), 400))
+	}
+	c.Floor("O9", "RET unsatisfied paths", len(paths), 1)
+}
+
+func isCallNamedInstr(name string) func(ssa.Instruction) bool {
+	return func(in ssa.Instruction) bool {
+		cc, ok := in.(ssa.CallInstruction)
+		return ok && calleeOf(cc) != nil && calleeOf(cc).Name() == name
 	}
 }
